@@ -278,3 +278,51 @@ func c08LiteralStart(c *Ctx, p *Prog, pk *packages.Package) {
 	})
 	c.Min(rule, "scan functions entered after a multi-byte opener", n, 2)
 }
+
+// C08 rule universe-interfaces-complete (added after probing: `type T interface { any }` asserted in the type checker:
+// the predeclared `any` was a bare &Interface{} whose method set had never been computed). Every interface type a
+// universe defines (the type argument of a NewTypeName handed to waDef / wzDef) is completed where it is built:
+// `….Complete()`, or the package's emptyInterface.
+func c08UniverseInterfaces(c *Ctx, p *Prog, tp *packages.Package) {
+	const rule = "universe-interfaces-complete"
+	if tp == nil {
+		return
+	}
+	info := tp.TypesInfo
+	n := 0
+	for _, name := range sortedDeclNames(tp) {
+		fd := AllFuncDecls(tp)[name]
+		if fd.Body == nil {
+			continue
+		}
+		ast.Inspect(fd.Body, func(m ast.Node) bool {
+			call, ok := m.(*ast.CallExpr)
+			if !ok {
+				return true
+			}
+			id, ok := call.Fun.(*ast.Ident)
+			if !ok || (id.Name != "waDef" && id.Name != "wzDef") || len(call.Args) != 1 {
+				return true
+			}
+			nt, ok := call.Args[0].(*ast.CallExpr)
+			if !ok || len(nt.Args) != 4 {
+				return true
+			}
+			if fid, ok := nt.Fun.(*ast.Ident); !ok || fid.Name != "NewTypeName" {
+				return true
+			}
+			typ := ast.Unparen(nt.Args[3])
+			t := info.TypeOf(typ)
+			if t == nil || !strings.HasSuffix(t.String(), "types.Interface") {
+				return true
+			}
+			n++
+			txt := types.ExprString(typ)
+			good := strings.HasSuffix(txt, ".Complete()") || strings.Contains(txt, "emptyInterface")
+			c.Check(good, rule, name+": "+types.ExprString(nt.Args[2])+" = "+txt, p.Pos(typ.Pos()), "completed where it is built",
+				"the universe defines "+types.ExprString(nt.Args[2])+" as "+txt+", an interface whose method set has not been computed: embedding it in an interface declaration reaches the type checker's `assert(allMethods != nil)` and the compiler panics on a valid program")
+			return true
+		})
+	}
+	c.Min(rule, "interface types defined by the universes", n, 2)
+}
